@@ -312,51 +312,59 @@ pub struct JumpCase {
 
 /// A program with one jump statement in the given source scope to a label written in the given target scope.
 /// Every label is followed by a guard that ends the program after a few visits, so accepted programs terminate.
-pub fn jump_case(kind: usize, source: usize, target: usize) -> JumpCase {
+pub fn jump_case(kind: usize, source: usize, target: usize, order: usize) -> JumpCase {
     let stmt = format!("{} {}", JUMP_KINDS[kind], JUMP_TARGETS[target].0);
-    let mut lines: Vec<String> = vec!["DIM SHARED ZG%".into(), "PRINT \"m1\"".into()];
-    let mut row = 0u32;
     let guard = |lines: &mut Vec<String>, label: &str, indent: &str| {
         lines.push(format!("{}:", label));
         lines.push(format!("{}ZG% = ZG% + 1", indent));
         lines.push(format!("{}IF ZG% > 3 THEN END", indent));
         lines.push(format!("{}PRINT \"{}\"", indent, label));
     };
+    let mut lines: Vec<String> = vec!["DIM SHARED ZG%".into(), "PRINT \"m1\"".into()];
     if source == 0 {
         lines.push(stmt.clone());
-        row = lines.len() as u32;
     }
     guard(&mut lines, "LM1", "");
     lines.push("CtxS".into());
     lines.push("ZN# = CtxF%(1)".into());
     lines.push("Other".into());
-    lines.push("SUB CtxS".into());
-    lines.push("  PRINT \"s1\"".into());
-    if source == 2 {
-        lines.push(format!("  {}", stmt));
-        row = lines.len() as u32;
+    // the three subprograms, in one of three textual orders (the last one is directly followed by main-module code)
+    let mut blocks: Vec<Vec<String>> = vec![];
+    {
+        let mut b: Vec<String> = vec!["SUB CtxS".into(), "  PRINT \"s1\"".into()];
+        if source == 2 {
+            b.push(format!("  {}", stmt));
+        }
+        guard(&mut b, "LS1", "  ");
+        b.push("END SUB".into());
+        blocks.push(b);
     }
-    guard(&mut lines, "LS1", "  ");
-    lines.push("END SUB".into());
-    lines.push("FUNCTION CtxF% (P%)".into());
-    lines.push("  PRINT \"f1\"".into());
-    if source == 3 {
-        lines.push(format!("  {}", stmt));
-        row = lines.len() as u32;
+    {
+        let mut b: Vec<String> = vec!["FUNCTION CtxF% (P%)".into(), "  PRINT \"f1\"".into()];
+        if source == 3 {
+            b.push(format!("  {}", stmt));
+        }
+        guard(&mut b, "LF1", "  ");
+        b.push("  CtxF% = 1".into());
+        b.push("END FUNCTION".into());
+        blocks.push(b);
     }
-    guard(&mut lines, "LF1", "  ");
-    lines.push("  CtxF% = 1".into());
-    lines.push("END FUNCTION".into());
-    lines.push("SUB Other".into());
-    guard(&mut lines, "LO1", "  ");
-    lines.push("END SUB".into());
+    {
+        let mut b: Vec<String> = vec!["SUB Other".into()];
+        guard(&mut b, "LO1", "  ");
+        b.push("END SUB".into());
+        blocks.push(b);
+    }
+    for k in 0..3 {
+        lines.extend(blocks[(k + order) % 3].clone());
+    }
     lines.push("PRINT \"m2\"".into());
     if source == 1 {
         lines.push(stmt.clone());
-        row = lines.len() as u32;
     }
     guard(&mut lines, "LM2", "");
     lines.push("END".into());
+    let row = lines.iter().position(|l| l.trim() == stmt).map(|i| i as u32 + 1).unwrap_or(0);
     let src_scope = match source {
         0 | 1 => "main",
         2 => "sub",
